@@ -109,6 +109,8 @@ def evalStateless (tag : String) (a : List String) : Option (String × String) :
     some (fmtOpt r, if r.isSome then "returned" else "lost")
   | "dial.persist", [_, _] => some ("redials", "persist")   -- an open dialer whose attempt failed, however it failed, tries again (Props.C14)
   | "opt.origin", [check] => some (if check == "true" then "refused" else "admitted", "origin")   -- the option in force is the policy applied
+  | "hs.after-rejects", [_, _] => some ("served", "after-rejects")   -- peers whose handshake is rejected do not delay a well-behaved one (C16)
+  | "opt.refused", [_, _] => some ("notraw/none", "refused")       -- a refused operation reports its error and has no effect (C19)
   | "opt.after", [_, _] => some ("received", "after")   -- a queue-length change never makes a connected peer's messages unreceivable
   | "mc.conflict", [_, k] => some (Macat.conflictVerdict (natArg k), "conflict")
   | "ws.enc", [h, b] =>
